@@ -97,6 +97,19 @@ type Twice struct {
 	C *Inner `json:"c,omitempty"`
 	D []Inner
 }
+// named types of unsupported kinds (dropped under IgnoreInvalidTypes), occurring more than once
+type Handler func()
+type IntKeyed map[int]string
+type MyChan chan int
+type TwoHandlers struct {
+	H1 Handler  `json:"h1"`
+	N  int      `json:"n"`
+	H2 Handler  `json:"h2"`
+	K1 IntKeyed `json:"k1"`
+	K2 *IntKeyed
+	C  []MyChan
+	C2 map[string]MyChan
+}
 type DescTag struct {
 	A int `json:"a" jsonschema:"the a"`
 }
@@ -112,6 +125,8 @@ var bank = map[string]reflect.Type{
 	"time.Time": reflect.TypeFor[time.Time](), "slog.Level": reflect.TypeFor[slog.Level](), "big.Int": reflect.TypeFor[big.Int](),
 	"big.Rat": reflect.TypeFor[big.Rat](), "big.Float": reflect.TypeFor[big.Float](),
 	"MyString": reflect.TypeFor[MyString](), "MyInt": reflect.TypeFor[MyInt](), "MyFloat": reflect.TypeFor[MyFloat](),
+	"Handler": reflect.TypeFor[Handler](), "IntKeyed": reflect.TypeFor[IntKeyed](), "MyChan": reflect.TypeFor[MyChan](),
+	"TwoHandlers": reflect.TypeFor[TwoHandlers](),
 }
 
 type tdesc struct {
